@@ -79,8 +79,10 @@ def shapes(tier):
             inner = els_[0].text()
             for o, e in zip(ops, els_[1:]):
                 inner += f" {o} {e.text()}"
-            for ctx in ('assign', 'component', 'size-after', 'size-before', 'size-inter-after', 'size-inter-before'):
+            for ctx in ('assign', 'component', 'size-after', 'size-before', 'size-inter-after', 'size-inter-before', 'size-inter-ext-after', 'size-inter-ext-before'):
                 if ctx in ('size-after', 'size-before') and (len(els_) > 1 or tier == 'quick' and els_[0].kind == 'str'):
+                    continue
+                if ctx.startswith('size-inter-ext') and (len(els_) > 1 and tier == 'quick' and not (els_[0].kind != els_[1].kind)):
                     continue
                 if ctx.startswith('size-inter') and ('^' in ops or (tier == 'quick' and len(els_) > 1 and els_[0].kind == els_[1].kind == 'str')):
                     # FROM and SIZE joined by an intersection inside ONE constraint (folded by fold_constraint_set)
@@ -94,6 +96,10 @@ def shapes(tier):
                     c = f"(FROM ({inner}) ^ SIZE (1..4))"
                 elif ctx == 'size-inter-before':
                     c = f"(SIZE (1..4) ^ FROM ({inner}))"
+                elif ctx == 'size-inter-ext-after':
+                    c = f"(FROM ({inner}) ^ SIZE (1..4, ...))"
+                elif ctx == 'size-inter-ext-before':
+                    c = f"(SIZE (1..4, ...) ^ FROM ({inner}))"
                 body = f"T ::= {ty} {c}" if ctx != 'component' else f"T ::= SEQUENCE {{ a {ty} {c} }}"
                 text = f"M DEFINITIONS AUTOMATIC TAGS ::= BEGIN {body} END"
                 role = ' '.join([els_[0].role()] + [f"{o} {e.role()}" for o, e in zip(ops, els_[1:])])
